@@ -757,6 +757,11 @@ func (w *bWorld) genOpaque() (string, []workload.PatchDesc) {
 		}
 	}
 
+	// a further top-level member may be an empty list or an empty object (it is a member like any other)
+	if note == "" && k.Draw(5, "opaque.emptyvalue") == 0 {
+		note = []string{"labels", "authentication", "extensions"}[k.Draw(3, "opaque.emptyvalue.name")] + "\x00\x00" + []string{"[]", "{}", "[[]]"}[k.Draw(3, "opaque.emptyvalue.value")]
+	}
+
 	if len(keys) == 0 && len(svcs) == 0 && len(uris) == 0 && note == "" {
 		keys = workload.KeyIDs()[:1] // (an empty document is not a valid input)
 	}
